@@ -93,8 +93,26 @@ type diffCmp struct{}
 
 func (diffCmp) Compare(a, b int) int { return (a - b) * 7 }
 
+// []byte keys whose order under the comparator (little-endian number) differs from their lexicographic order
+type leCmp struct{}
+
+func (leCmp) Compare(a, b []byte) int {
+	x, y := binary.LittleEndian.Uint32(a), binary.LittleEndian.Uint32(b)
+	switch {
+	case x < y:
+		return -1
+	case x > y:
+		return 1
+	}
+	return 0
+}
+
 func newSL(cmp string) slI {
 	switch cmp {
+	case "bytesle":
+		return &slOf[[]byte]{m: skiplist.NewSkipListMap[[]byte, int](leCmp{}),
+			enc: func(r int) []byte { b := make([]byte, 4); binary.LittleEndian.PutUint32(b, uint32(r+1000)); return b },
+			dec: func(b []byte) int { return int(binary.LittleEndian.Uint32(b)) - 1000 }}
 	case "intdiff":
 		return &slOf[int]{m: skiplist.NewSkipListMap[int, int](diffCmp{}), enc: func(r int) int { return r }, dec: func(k int) int { return k }}
 	case "string":
